@@ -4,8 +4,14 @@
 // Line protocol (one self-contained history per line):
 //
 //	C02 run <tree> <ops>
-//	tree = id:parent:work:flags,...   ids 1..n in any order, 0 = genesis,
+//	tree = id:parent:work:flags[:pace],...   ids 1..n in any order, 0 = genesis,
 //	       flags = 4 chars 0/1: sane, hdrOk, ctxOk, connOk
+//	       work  = the block's own work in units of the minimum-difficulty work
+//	       pace  = f|n|s (all blocks or none): the chain then runs on synthetic
+//	               parameters that retarget every 2 blocks, the block's timestamp
+//	               is parent + 1 s / 20 min / 80 min, and the required bits (hence
+//	               the work, which must match the work field) follow from btcd's
+//	               own retarget rule
 //	ops  = b<id> | h<id> | i<id> | r<id>, comma separated
 //
 // Answer: one observation per op, joined by ';' (see observe).
@@ -49,6 +55,7 @@ func (P) Facts() []core.Fact {
 type blk struct {
 	id, parent, work          int
 	sane, hdrOk, ctxOk, connOk bool
+	pace                      byte // 0 = regtest mode, else 'f' 'n' 's'
 }
 
 type op struct {
@@ -65,6 +72,11 @@ func parseLine(line string) (tree []blk, ops []op, ok bool) {
 	if f[2] != "-" {
 		for _, t := range strings.Split(f[2], ",") {
 			p := strings.Split(t, ":")
+			var pace byte
+			if len(p) == 5 && (p[4] == "f" || p[4] == "n" || p[4] == "s") {
+				pace = p[4][0]
+				p = p[:4]
+			}
 			if len(p) != 4 || len(p[3]) != 4 {
 				return nil, nil, false
 			}
@@ -80,7 +92,12 @@ func parseLine(line string) (tree []blk, ops []op, ok bool) {
 				}
 			}
 			seen[id] = true
-			tree = append(tree, blk{id, par, w, p[3][0] == '1', p[3][1] == '1', p[3][2] == '1', p[3][3] == '1'})
+			tree = append(tree, blk{id, par, w, p[3][0] == '1', p[3][1] == '1', p[3][2] == '1', p[3][3] == '1', pace})
+		}
+		for _, b := range tree {
+			if (b.pace == 0) != (tree[0].pace == 0) {
+				return nil, nil, false // pace on all blocks or on none
+			}
 		}
 	}
 	if f[3] != "-" {
@@ -107,14 +124,71 @@ type built struct {
 	block  *btcutil.Block
 	height int32
 	ts     int64
+	bits   uint32
 	par    *built // nil when the parent is genesis or unresolvable
+	gen    *built // the genesis pseudo-node (for the header context)
 	ok     bool   // could be built (its parent chain resolves to genesis)
+	badWork bool  // the work field of the line does not match the required difficulty
+}
+
+// HeaderCtx over the factory's own tree, so that the required bits of a paced
+// block can be computed with btcd's retarget rule before any chain exists.
+func (x *built) Height() int32    { return x.height }
+func (x *built) Bits() uint32     { return x.bits }
+func (x *built) Timestamp() int64 { return x.ts }
+func (x *built) Parent() blockchain.HeaderCtx {
+	if x.height == 0 {
+		return nil
+	}
+	if x.par == nil {
+		return x.gen
+	}
+	return x.par
+}
+func (x *built) RelativeAncestorCtx(d int32) blockchain.HeaderCtx {
+	if d < 0 || d > x.height {
+		return nil
+	}
+	n := x
+	for i := int32(0); i < d; i++ {
+		if n.par == nil {
+			n = n.gen
+		} else {
+			n = n.par
+		}
+	}
+	return n
+}
+
+// chainCtx is the ChainCtx of the synthetic parameters (what BlockChain derives from them).
+type chainCtx struct{ p *chaincfg.Params }
+
+func (c chainCtx) ChainParams() *chaincfg.Params { return c.p }
+func (c chainCtx) BlocksPerRetarget() int32 {
+	return int32(c.p.TargetTimespan / c.p.TargetTimePerBlock)
+}
+func (c chainCtx) MinRetargetTimespan() int64 {
+	return int64(c.p.TargetTimespan/time.Second) / c.p.RetargetAdjustmentFactor
+}
+func (c chainCtx) MaxRetargetTimespan() int64 {
+	return int64(c.p.TargetTimespan/time.Second) * c.p.RetargetAdjustmentFactor
+}
+func (c chainCtx) VerifyCheckpoint(int32, *chainhash.Hash) bool { return false }
+func (c chainCtx) FindPreviousCheckpoint() (blockchain.HeaderCtx, error) {
+	return nil, nil
 }
 
 type factory struct {
 	params *chaincfg.Params
 	byID   map[int]*built
 	idOf   map[chainhash.Hash]int
+	gen    *built
+}
+
+func newFactory(params *chaincfg.Params) *factory {
+	f := &factory{params: params, byID: map[int]*built{}, idOf: map[chainhash.Hash]int{*params.GenesisHash: 0}}
+	f.gen = &built{height: 0, ts: params.GenesisBlock.Header.Timestamp.Unix(), bits: params.GenesisBlock.Header.Bits, ok: true}
+	return f
 }
 
 func (f *factory) mtp(n *built) int64 {
@@ -147,7 +221,7 @@ func (f *factory) build(b blk, tree map[int]blk, depth int) *built {
 	if x, ok := f.byID[b.id]; ok {
 		return x
 	}
-	x := &built{b: b}
+	x := &built{b: b, gen: f.gen}
 	f.byID[b.id] = x
 	var prevHash chainhash.Hash
 	if b.parent == 0 {
@@ -167,8 +241,39 @@ func (f *factory) build(b blk, tree map[int]blk, depth int) *built {
 		return x
 	}
 	x.ts = baseTime + int64(x.height)*600 + int64(b.id%500)
+	x.bits = f.params.PowLimitBits
+	if b.pace != 0 {
+		// paced mode: timestamp relative to the parent, bits from btcd's retarget rule
+		if x.par == nil {
+			x.ts = baseTime + int64(b.id%500)
+		} else {
+			dt := int64(1200)
+			switch b.pace {
+			case 'f':
+				dt = 1
+			case 's':
+				dt = 4800
+			}
+			x.ts = x.par.ts + dt
+		}
+	}
 	if !b.hdrOk {
 		x.ts = f.mtp(x.par) // must be strictly greater than the median time past
+	}
+	if b.pace != 0 {
+		var last blockchain.HeaderCtx = f.gen
+		if x.par != nil {
+			last = x.par
+		}
+		bits, err := blockchain.VerifCalcNextRequiredDifficulty(last, time.Unix(x.ts, 0), chainCtx{f.params})
+		if err != nil {
+			x.ok = false
+			return x
+		}
+		x.bits = bits
+	}
+	if w := blockchain.CalcWork(x.bits); !w.IsInt64() || w.Int64() != 2*int64(b.work) {
+		x.badWork = true
 	}
 	script, _ := txscript.NewScriptBuilder().AddInt64(int64(x.height)).AddInt64(int64(b.id) + 0x10000).Script()
 	cb := wire.NewMsgTx(1)
@@ -193,7 +298,7 @@ func (f *factory) build(b blk, tree map[int]blk, depth int) *built {
 			PrevBlock:  prevHash,
 			MerkleRoot: cb.TxHash(),
 			Timestamp:  time.Unix(x.ts, 0),
-			Bits:       f.params.PowLimitBits,
+			Bits:       x.bits,
 		},
 		Transactions: []*wire.MsgTx{cb},
 	}
@@ -207,6 +312,18 @@ func (f *factory) build(b blk, tree map[int]blk, depth int) *built {
 }
 
 // ---------------------------------------------------------------- the real chain
+
+// pacedParams: regtest with retargeting switched on, a retarget every 2 blocks
+// and the usual factor 4, so that sibling chains can carry different work.
+func pacedParams() *chaincfg.Params {
+	p := cloneParams()
+	p.PoWNoRetargeting = false
+	p.ReduceMinDifficulty = false
+	p.TargetTimePerBlock = 10 * time.Minute
+	p.TargetTimespan = 20 * time.Minute
+	p.RetargetAdjustmentFactor = 4
+	return p
+}
 
 func cloneParams() *chaincfg.Params {
 	p := chaincfg.RegressionNetParams
@@ -298,12 +415,13 @@ func tmpDir() string {
 	return os.TempDir()
 }
 
-func newInst() (*inst, error) {
+func newInst() (*inst, error) { return newInstWith(cloneParams()) }
+
+func newInstWith(params *chaincfg.Params) (*inst, error) {
 	dir, err := os.MkdirTemp(tmpRoot, "verif-c02-")
 	if err != nil {
 		return nil, err
 	}
-	params := cloneParams()
 	db, err := database.Create("ffldb", dir, params.Net)
 	if err != nil {
 		os.RemoveAll(dir)
@@ -321,7 +439,7 @@ func newInst() (*inst, error) {
 		return nil, err
 	}
 	in.chain = chain
-	in.f = &factory{params: params, byID: map[int]*built{}, idOf: map[chainhash.Hash]int{*params.GenesisHash: 0}}
+	in.f = newFactory(params)
 	chain.Subscribe(func(n *blockchain.Notification) {
 		blk, ok := n.Data.(*btcutil.Block)
 		if !ok {
@@ -452,7 +570,13 @@ func (P) Exec(line string) string {
 	if !ok {
 		return "bad-op"
 	}
-	in, err := pooledInst()
+	var in *inst
+	var err error
+	if len(tree) > 0 && tree[0].pace != 0 {
+		in, err = newInstWith(pacedParams())
+	} else {
+		in, err = pooledInst()
+	}
 	if err != nil {
 		return "harness-error"
 	}
@@ -471,8 +595,8 @@ func (P) Exec(line string) string {
 		if x := in.f.byID[b.id]; x == nil || !x.ok {
 			return "bad-op" // a block whose parent chain does not reach genesis cannot be built
 		}
-		if b.work != 1 {
-			return "bad-op"
+		if in.f.byID[b.id].badWork {
+			return "bad-work" // the line's work field contradicts the real difficulty rule
 		}
 	}
 	var out []string
@@ -555,6 +679,9 @@ func fmtTree(tree []blk) string {
 			}
 		}
 		parts[i] = fmt.Sprintf("%d:%d:%d:%s", b.id, b.parent, b.work, fl)
+		if b.pace != 0 {
+			parts[i] += ":" + string(b.pace)
+		}
 	}
 	return strings.Join(parts, ",")
 }
